@@ -9,12 +9,14 @@ CONSTANTS
   MaxBatch = 2
   MaxCancel = 1
   MaxDue = 0
+  MaxSlow = 0
   MaxSendFail = 0
   SendHops = 4
   SkipDoneFutures = TRUE
   GuardSetException = TRUE
   AllFieldMatchers = TRUE
   TicketBeforeRegister = TRUE
+  LiveListAtCompletion = TRUE
 INVARIANT TypeOK
 INVARIANT OnlyMatching
 INVARIANT FirstMatching
